@@ -39,8 +39,18 @@ def main():
         demo = os.path.join(src, "demo.py")
         rc, out, _ = run([PY, demo], cwd=wt, env=env, timeout=600)
         res["demo_without"] = {"rc": rc, "tail": out[-600:]}
-        rc, out, _ = run(["git", "apply", os.path.abspath(os.path.join(src, "patch.diff"))], cwd=wt)
-        res["apply"] = {"rc": rc, "out": out[-500:]}
+        pf = os.path.abspath(os.path.join(src, "patch.diff"))
+        rc, out, _ = run(["git", "apply", pf], cwd=wt)
+        how = "git apply"
+        if rc != 0:
+            # the repository has moved on since the patch was written (fix commits): retry with less context
+            rc, out2, _ = run(["git", "apply", "-C1", pf], cwd=wt)
+            how = "git apply -C1"
+            if rc != 0:
+                rc, out2, _ = run(["patch", "-p1", "-F", "3", "--no-backup-if-mismatch", "-i", pf], cwd=wt)
+                how = "patch -p1 -F3"
+            out = out + out2
+        res["apply"] = {"rc": rc, "how": how, "out": out[-500:]}
         if rc != 0:
             res["valid"] = False
             return res
@@ -73,13 +83,18 @@ def main():
         dst = os.path.join(VERIF, "seeded", name)
         os.makedirs(dst, exist_ok=True)
         for f in ("patch.diff", "demo.py"):
-            if os.path.exists(os.path.join(src, f)):
+            if os.path.exists(os.path.join(src, f)) and os.path.abspath(src) != os.path.abspath(dst):
                 shutil.copy(os.path.join(src, f), os.path.join(dst, f))
         meta = {}
         try:
             meta = json.load(open(os.path.join(src, "meta.json")))
         except Exception:
             pass
+        meta.pop("verification", None) if False else None
+        prev = meta.get("verification", {}).get("checks", {}) if isinstance(meta.get("verification"), dict) else {}
+        # keep the record of checks not re-run this time
+        for k, v in prev.items():
+            res.setdefault("checks", {}).setdefault(k, v)
         meta["verification"] = res
         meta["ran"] = ("scratch worktree of /repo HEAD: demo without patch; git apply; pinned suite; demo with patch; "
                        "then ./check <prop> --tier %s with MEMENTO_REPO=<worktree>" % tier)
